@@ -10,4 +10,4 @@ From Agdb Require Export Records Storage StorageSpec.
 From Agdb Require Export ConcRead DeriveType.
 From Agdb Require Export Auth Paths.
 (* the storage-backed collections (C05): unique prefixes cp_ cv_ ce_ cl_ cm_ ct_ cg_ ga_ cr_ *)
-From Agdb Require Export Collections.
+From Agdb Require Export Collections CollValues.
